@@ -111,7 +111,8 @@ def c14_pipeline(tname: str, mask: int, o0: int, o1: int, **leaves) -> str:
         stage = "fill_in_let"
         c1 = fill_in_let(c, override_dict=ov) if ov else c
         stage = "run"
-        res = run_jaqal_circuit(c1)
+        from .walk import emulate
+        res = emulate(c1)
     except JaqalError as ex:
         if ref is None:
             return "~rejected"
